@@ -205,6 +205,23 @@ CHECKS["C14"] = (
     "collapse_order are not generated.",
     "TLA+ results-view spec (sort/group/collapse/filter/page) as oracle for real searches")
 
+CHECKS["C16"] = (
+    "model_checking",
+    "QueryLang.tla defines expression trees of the query language, their text (Render: NOT tightest, then AND, OR, "
+    "the binary operators parenthesised when mixed, then juxtaposition; field prefixes and field groups, phrases "
+    "with slop, ranges, wildcards, boosts; the +/- language of SimpleParser/DisMaxParser) and their documented "
+    "reading (Meaning) as a QuerySem query. TLC renders random trees, the real parsers (default, OrGroup, "
+    "OrGroup.factory, Multifield and, or, Simple, DisMax) parse exactly that text, the parsed query is searched on "
+    "real multi-segment indexes and TLC judges the selected documents against Denote(Meaning(tree)). Totality: "
+    "TLC enumerates every string of <= 2 (quick) / <= 3 (thorough) tokens of the alphabet in QueryLangInputs.tla "
+    "plus random longer ones; 13 parser configurations (incl. all optional plugins, schema-less, numeric/date/ngram "
+    "default fields) parse each and every parsed query is searched on an index with every field type; TLC judges "
+    "each distinct (parser, parse outcome, search outcome).",
+    "DESIGN.md 4.11, 5 (C16)", "Membership only (boosts are transparent). The language fragment is the one in the "
+    "property statement; fuzzy/regex/function/date syntax takes part in totality only. Totality is exhaustive only up "
+    "to the stated token bound over the stated alphabet.",
+    "TLA+ grammar/meaning spec: TLC renders expressions and enumerates inputs, real parsers and searches are judged by TLC")
+
 NOT_YET = {}
 
 
